@@ -63,7 +63,18 @@ def parse_cutoffs_abstract(c):
 
 
 def items_of(lst):
-    return list(lst.items)
+    """Items of the modifier list; alternatives (objects of unrelated shapes merged at a join) are made explicit."""
+    out = []
+    for g, it in lst.items:
+        if isinstance(it, ChoiceV):
+            for c_, v_ in it.options:
+                out.append((z3.And(g, c_), v_))
+        elif isinstance(it, Opt) and isinstance(it.val, ChoiceV):
+            for c_, v_ in it.val.options:
+                out.append((z3.And(g, z3.Not(it.none), c_), v_))
+        else:
+            out.append((g, it))
+    return out
 
 
 def sides(item):
